@@ -239,6 +239,48 @@ def parse_units(reg, common):
          [ID("request", 1)] + PAYLOAD(3) + OPT("progress", 2, "bool") + SESSION("callee", 2) + OPT("callee_authid", 2, "str")
          + OPT("callee_authrole", 2, "str") + FF(2),
          extra_inline=["request", "progress", "callee", "callee_authid", "callee_authrole"], loops=FF_LOOP, more_inline=PAYLOAD_INL)
+    CALLEE = {"callee": "@V", "callee_authid": "@V", "callee_authrole": "@V", "forward_for": "@FF"}
+
+    def CALLEE_ENS(i):
+        return SESSION("callee", i) + OPT("callee_authid", i, "str") + OPT("callee_authrole", i, "str") + FF(i)
+    unit("Result", dict(CALLEE, progress="@V", **ENC_OPTS),
+         [ID("request", 1)] + PAYLOAD(3) + OPT("progress", 2, "bool") + CALLEE_ENS(2),
+         extra_inline=["request", "progress", "callee", "callee_authid", "callee_authrole"], loops=FF_LOOP, more_inline=PAYLOAD_INL)
+    unit("Error", dict(CALLEE, **ENC_OPTS),
+         ["type(result.request_type) == int and result.request_type == wmsg[1] and (" +
+          " or ".join("result.request_type == %d" % t for t in (32, 34, 16, 64, 66, 48, 68)) + ")",
+          ID("request", 2), URI("error", "wmsg[4]")] + PAYLOAD(5) + CALLEE_ENS(3),
+         extra_inline=["request_type", "request", "error", "callee", "callee_authid", "callee_authrole"], loops=FF_LOOP,
+         more_inline=PAYLOAD_INL)
+    CALLER = {"caller": "@V", "caller_authid": "@V", "caller_authrole": "@V", "forward_for": "@FF"}
+
+    def CALLER_ENS(i):
+        return SESSION("caller", i) + OPT("caller_authid", i, "str") + OPT("caller_authrole", i, "str") + FF(i)
+
+    def TIMEOUT(i):
+        return ["result.timeout is None or (type(result.timeout) == int and result.timeout >= 0)",
+                "implies('timeout' in wmsg[%d], result.timeout == wmsg[%d]['timeout'])" % (i, i)]
+    unit("Call", dict(CALLER, timeout="@V", receive_progress="@V", transaction_hash="@V", **ENC_OPTS),
+         [ID("request", 1), URI("procedure", "wmsg[3]")] + PAYLOAD(4) + TIMEOUT(2) + OPT("receive_progress", 2, "bool")
+         + OPT("transaction_hash", 2, "str") + CALLER_ENS(2),
+         extra_inline=["request", "procedure", "timeout", "receive_progress", "transaction_hash", "caller", "caller_authid",
+                       "caller_authrole"], loops=FF_LOOP, more_inline=PAYLOAD_INL)
+    unit("Invocation", dict(CALLER, timeout="@V", receive_progress="@V", transaction_hash="@V", procedure="@V", **ENC_OPTS),
+         [ID("request", 1), ID("registration", 2)] + PAYLOAD(4) + TIMEOUT(3) + OPT("receive_progress", 3, "bool")
+         + OPT("transaction_hash", 3, "str") + CALLER_ENS(3)
+         + ["implies(result.procedure is not None, " + URI("procedure", "wmsg[3]['procedure']") + ")",
+            "('procedure' in wmsg[3]) == (result.procedure is not None)"],
+         extra_inline=["request", "registration", "timeout", "receive_progress", "transaction_hash", "caller", "caller_authid",
+                       "caller_authrole", "procedure"], loops=FF_LOOP, more_inline=PAYLOAD_INL)
+    unit("Event", dict({"publisher": "@V", "publisher_authid": "@V", "publisher_authrole": "@V", "topic": "@V", "retained": "@V",
+                        "transaction_hash": "@V", "x_acknowledged_delivery": "@V", "forward_for": "@FF"}, **ENC_OPTS),
+         [ID("subscription", 1), ID("publication", 2)] + PAYLOAD(4) + SESSION("publisher", 3) + OPT("publisher_authid", 3, "str")
+         + OPT("publisher_authrole", 3, "str") + OPT("retained", 3, "bool") + OPT("transaction_hash", 3, "str")
+         + OPT("x_acknowledged_delivery", 3, "bool") + FF(3)
+         + ["implies(result.topic is not None, " + URI("topic", "wmsg[3]['topic']") + ")",
+            "('topic' in wmsg[3]) == (result.topic is not None)"],
+         extra_inline=["subscription", "publication", "publisher", "publisher_authid", "publisher_authrole", "topic", "retained",
+                       "transaction_hash", "x_acknowledged_delivery"], loops=FF_LOOP, more_inline=PAYLOAD_INL)
     for cls, f in (("Unsubscribed", "subscription"), ("Unregistered", "registration")):
         unit(cls, {f: "@V", "reason": "@V"},
              [ID("request", 1),
